@@ -202,6 +202,12 @@ func runC01(r *simkit.Run, c Cfg) {
 		sopts[i], sopts[j] = sopts[j], sopts[i]
 	}
 	sub := w.NewSubscriber(sopts...)
+	if c.Case < 0 && tp.Chance(1, 4, "quietEnd") {
+		// the hook says nothing at the end of a chain, instead of naming
+		// "no next CID": both end a segmented sync
+		sub.QuietEnd = true
+		r.Probe("hook-silent-at-chain-end")
+	}
 	lst := &listener{}
 	lst.ch, lst.cancel = sub.Sub.OnSyncFinished()
 	r.Logf("~cfg", "ads=%d discovery=%v dead=%d tls=%v path=%q adsDepth=%d entDepth=%d first=%d seg=%d retry=%v hosts=%d",
@@ -362,12 +368,18 @@ func c01AdCall(t *simkit.Task, w *World, pub *PubNode, sub *SubNode, lst *listen
 		opts = append(opts, dagsync.ScopedSegmentDepthLimit(sd))
 		desc = append(desc, fmt.Sprintf("seg=%d", sd))
 	}
-	// Effective depth: scoped > first-sync (no stop link) > subscriber limit.
+	// Effective depth: per call > first sync > subscriber limit. The first
+	// sync "with a new provider" is one of a publisher that has no
+	// latest-synced advertisement yet: a resync of a publisher that has one
+	// is not a first sync, although it stops nowhere.
 	depth := cfg.adsDepth
 	if scoped != 0 {
 		depth = scoped
-	} else if stop == cid.Undef && cfg.firstDepth != 0 {
+	} else if stop == cid.Undef && latest == cid.Undef && cfg.firstDepth != 0 {
 		depth = cfg.firstDepth
+	}
+	if resync && latest != cid.Undef && cfg.firstDepth != 0 && scoped == 0 {
+		r.Probe("resync-of-known-publisher-with-first-sync-depth-configured")
 	}
 
 	scopedHook := tp.Chance(1, 4, "scopedHook")
